@@ -105,6 +105,18 @@ def gen_list(t, flavour=None, min_lines=3, max_lines=40):
         # make some base words frequent enough for multi-word detection
         w = t.choice(WORDS)
         pws += [w] * t.between(5, 7)
+    if flavour.get("multi3") or t.chance(1, 6):
+        # a three-word multi-word, its two-word tail and head, and the base words often enough to be split
+        ws = t.sample([w for w in WORDS if len(w) >= 4], 3)
+        for w in ws:
+            pws += [w] * 5
+        pws.append("".join(ws))
+        if t.chance(2, 3):
+            pws.insert(t.draw(len(pws) + 1), ws[1] + ws[2])
+        if t.chance(1, 3):
+            pws.append(ws[0] + ws[1])
+        if t.chance(1, 3):
+            pws.append(ws[0].capitalize() + ws[1] + ws[2].upper())
     opts = {
         "coverage": t.choice([0.6, 0.6, 0.5, 1.0, 0.0, 0.1, 0.9]),
         "ngram": t.choice([4, 3, 2, 4, 5]),
